@@ -256,7 +256,12 @@ fn gate_mode(seed: u64, trials: u64) -> i32 {
                 let tw = crate::now_ms();
                 while FLIPS.load(Ordering::SeqCst) < 2 && !w_done.load(Ordering::SeqCst) && crate::now_ms() - tw < 20_000 {
                     std::thread::yield_now();
-                    if SPINS.load(Ordering::SeqCst) - base > 20_000 {
+                    // the iterations are read first, the flips after: if the table has not been flipped even then, every
+                    // iteration counted belongs to the fallback's barrier (in the table's barrier the writer rightly waits
+                    // for the second wave, however long this thread was off the CPU meanwhile)
+                    let sp = SPINS.load(Ordering::SeqCst);
+                    let fl = FLIPS.load(Ordering::SeqCst);
+                    if fl < 2 && sp - base > 20_000 {
                         stuck = true;
                         break;
                     }
